@@ -103,9 +103,14 @@ Proof.
   rewrite Z.mul_comm, Z.mod_add by (apply Z.pow_nonzero; lia). apply Z.mod_mod. apply Z.pow_nonzero; lia.
 Qed.
 
-Lemma enc_is_contrib p v : sig_ok p v -> c_encode_signal (kind_of p) (pstart p) (plen p) v = contrib p v.
+Lemma sig_ok_little p v : sig_ok p v -> is_big p = false.
+Proof. intros (_ & Hsup & _). unfold c_supported_piece in Hsup. apply andb_true_iff in Hsup. destruct Hsup as [Hb _]. now apply negb_true_iff in Hb. Qed.
+
+Lemma enc_is_contrib p v : sig_ok p v -> c_encode_signal_e (kind_of p) (is_big p) (pstart p) (plen p) v = contrib p v.
 Proof.
-  intros ((Hs & Hl & Hsl) & Hsup & Hin). unfold c_supported_piece, c_in_range in *. unfold contrib.
+  intros Hok. unfold c_encode_signal_e. rewrite (sig_ok_little p v Hok). revert Hok.
+  intros ((Hs & Hl & Hsl) & Hsup & Hin). unfold c_supported_piece in Hsup. apply andb_true_iff in Hsup. destruct Hsup as [_ Hsup].
+  unfold c_supported_kind, c_in_range in *. unfold contrib.
   assert (Hpl : 0 < 2 ^ plen p) by (apply Z.pow_pos_nonneg; lia).
   assert (Hps : 0 < 2 ^ pstart p) by (apply Z.pow_pos_nonneg; lia).
   pose proof (pow_le_64 _ _ Hs Hl Hsl) as H64.
@@ -131,7 +136,7 @@ Qed.
 Lemma fold_lor_pack : forall ps vs s e acc,
   contiguous s ps e -> 0 <= s -> e <= 64 -> length vs = length ps ->
   Forall2 sig_ok ps vs -> 0 <= acc < 2 ^ s ->
-  fold_left Z.lor (map (fun sv => let '(k, st, l) := fst sv in c_encode_signal k st l (snd sv)) (combine (map sig_of ps) vs)) acc
+  fold_left Z.lor (map (fun sv => let '(k, b, st, l) := fst sv in c_encode_signal_e k b st l (snd sv)) (combine (map sig_of ps) vs)) acc
   = acc + 2 ^ s * Z_of_bits (pack ps vs).
 Proof.
   induction ps as [|p ps IH]; intros vs s e acc Hc Hs He Hlen Hok Hacc.
@@ -193,9 +198,11 @@ Qed.
 Lemma dec_of_field p v word : sig_ok p v ->
   Z.land (word / 2 ^ pstart p) (mask (plen p)) = v mod 2 ^ plen p ->
   (kind_of p = KF64 -> word = v) ->
-  c_decode_signal (kind_of p) (pstart p) (plen p) word = v.
+  c_decode_signal_e (kind_of p) (is_big p) (pstart p) (plen p) word = v.
 Proof.
-  intros ((Hs & Hl & Hsl) & Hsup & Hin) Hbf H64. unfold c_decode_signal, c_supported_piece, c_in_range in *. rewrite Hbf.
+  intros Hok. unfold c_decode_signal_e. rewrite (sig_ok_little p v Hok). revert Hok.
+  intros ((Hs & Hl & Hsl) & Hsup & Hin) Hbf H64. unfold c_supported_piece in Hsup. apply andb_true_iff in Hsup. destruct Hsup as [_ Hsup].
+  unfold c_decode_signal, c_supported_kind, c_in_range in *. rewrite Hbf.
   assert (Hpl : 0 < 2 ^ plen p) by (apply Z.pow_pos_nonneg; lia).
   destruct (kind_of p) as [c|c| | | |] eqn:Ek; try discriminate.
   - apply Z.leb_le in Hsup. apply andb_true_iff in Hin. destruct Hin as [H0 H1]. apply Z.leb_le in H0. apply Z.ltb_lt in H1.
@@ -262,7 +269,8 @@ Proof.
     apply dec_of_field; [exact Hpv| |].
     + rewrite <- (Z2Nat.id (pstart p)) at 1 by lia. rewrite <- (Z2Nat.id (plen p)) at 1 by lia.
       rewrite extract_is_le_extract. exact Hle.
-    + intros Hk. unfold c_supported_piece, c_in_range in Hsup, Hin. rewrite Hk in Hsup, Hin.
+    + intros Hk. unfold c_supported_piece in Hsup. apply andb_true_iff in Hsup. destruct Hsup as [_ Hsup].
+      unfold c_supported_kind, c_in_range in Hsup, Hin. rewrite Hk in Hsup, Hin.
       apply andb_true_iff in Hsup. destruct Hsup as [E0 E64]. apply Z.eqb_eq in E0, E64.
       apply andb_true_iff in Hin. destruct Hin as [H0 H1]. apply Z.leb_le in H0. apply Z.ltb_lt in H1.
       rewrite E0, E64 in Hle. unfold le_extract in Hle. cbn [skipn Z.to_nat] in Hle.
